@@ -84,6 +84,31 @@ theorem maintenance_adds_nothing (v : GC.Variant) (G : GC.Id → List GC.Id) (ro
     s.has x = true :=
   GC.apply_no_new_objects h hx
 
+/-- Maintenance from a LONG-LIVED handle: every operation is given its own, arbitrary `view` of the packs (what
+`self.packs` returns in that process: cached `Pack` objects, possibly of files another process has removed since, in any
+order, followed by whatever a rescan finds).  Whether an operation returns or raises `PackFileDisappeared`, every
+reachable object that is present stays present — for any sequence of operations and views. -/
+theorem maintenance_from_any_cache_preserves_reachable (v : GC.Variant) (G : GC.Id → List GC.Id) (roots : List GC.Id)
+    (fuel : Nat) (ops : List (List GC.Pack × GC.Op)) (s s' : GC.Store)
+    (h : GC.applyAllV v G roots fuel ops s = some s') (x : GC.Id)
+    (hr : GC.Reach s G roots x) (hx : s.has x = true) : s'.has x = true :=
+  GC.applyAllV_preserves_reachable h hr hx
+
+/-- Why `_complete_pack` must not take a cached pack's word for it: pack `{1,2}` was removed by another process (say
+`git gc --prune=now` after a branch deletion), its objects are back as loose files, and the long-lived handle still has
+the pack cached.  The code raises `PackFileDisappeared` and deletes nothing; a test that trusts the cache
+(`trustStale`, not the code) "finds the objects already packed", installs nothing and deletes the loose files:
+reachable objects 1 and 2 are gone. -/
+theorem stale_cached_pack_must_not_count :
+    let stale : GC.Pack := { ids := [1, 2], mtime := 50 }
+    let s : GC.Store := { loose := [(1, 100), (2, 100)], packs := [{ ids := [3], mtime := 60 }], alts := [] }
+    GC.packLooseV GC.Variant.current false [stale, { ids := [3], mtime := 60 }] s 200 = (s, true) ∧
+    ((GC.packLooseV GC.Variant.current true [stale, { ids := [3], mtime := 60 }] s 200).1.has 1,
+     (GC.packLooseV GC.Variant.current true [stale, { ids := [3], mtime := 60 }] s 200).1.has 2) = (false, false) ∧
+    -- with a fresh view the same call packs them
+    (GC.packLooseV GC.Variant.current false [{ ids := [3], mtime := 60 }] s 200).1.packs.map (·.ids) = [[3], [1, 2]] := by
+  decide
+
 /-- Regression witness (code before the series: `get_object_mtime` = the loose file's mtime, else the first pack's):
 object 9 is unreachable, its loose copy is 7200 s old, its packed copy 1800 s; `gc(grace 3600)` removed it from the store
 altogether.  The repaired code keeps it. -/
